@@ -7,6 +7,9 @@ CONSTANTS
   NonRecCross = TRUE
   B2B = TRUE
   WithRoot = TRUE
+  InodeReuse = FALSE
+  StickyCreated = FALSE
+  ViewSkipInCreatedRemoved = FALSE
   RecModes = {FALSE}
 INVARIANT FSEvents_NonRecursiveNothingBelowChildren
 CHECK_DEADLOCK FALSE
